@@ -267,19 +267,26 @@ def step_list(ctx, g, h, sh, rng):
         desc = "n%d.modules.insert(%d, n%d)" % (ir, idx, v)
         ri = call(g, lambda: ml.insert(idx, O[v])); moved(v); rs = call(g, lambda: l.insert(idx, v)); item = [5, ir, idx, v]
     elif m in ("extend", "iadd"):
+        # the argument may name a module more than once, and modules already in this list: each mention moves it to the end
+        vs = [rng.choice(l) if (l and rng.random() < 0.3) else rng.choice(mods) for _ in range(rng.choice([0, 1, 2, 3, 4]))]
+        if len(vs) != len(set(vs)):
+            ctx.count("list.extend_with_repeats")
         desc = "n%d.modules.%s(%s)" % (ir, m, vs)
         if m == "extend":
-            ri = call(g, lambda: ml.extend([O[x] for x in vs]))
+            ri = call(g, lambda: ml.extend(w._form([O[x] for x in vs])))
         else:
             def f():
                 x = O[ir].modules
-                x += [O[y] for y in vs]
+                x += w._form([O[y] for y in vs])
                 if x is not ml:
                     raise AssertionError("+= returned another object")
             ri = call(g, f)
-        for x in vs:
-            moved(x)
-        rs = call(g, lambda: l.extend(vs)); item = [6, ir, vs]
+
+        def fs():
+            for x in vs:
+                moved(x)
+                l.append(x)
+        rs = call(g, fs); item = [6, ir, vs]
     elif m == "remove":
         desc = "n%d.modules.remove(n%d)" % (ir, v)
         ri = call(g, lambda: ml.remove(O[v])); rs = call(g, lambda: l.remove(v)); item = [7, ir, v]
@@ -527,7 +534,8 @@ def run(ctx):
             if problem is None:
                 problem = check_contents(ctx, h, sh, desc, len(h.items))
             if problem:
-                op = desc.split("(")[0].split(" ")[1] if " " in desc else desc.split(".")[-1].split("(")[0]
+                head = desc.split("(")[0]
+                op = head.split(" ")[1] if " " in head else head.split(".")[-1]
                 ctx.add("oracle", "not-like-builtin:" + op, "%s: %s" % (desc, problem), {"call": desc, "problem": problem, "items": h.items})
                 break
         h.observe_forest()
